@@ -379,11 +379,27 @@ impl Interp {
             if rounds > 500 {
                 break;
             }
+            // select on a helper thread: if the implementation lost an event the call never returns,
+            // and in this single-threaded program nothing could ever wake it (logical hang, 3.5)
             let evs = {
-                let set = &mut self.world.sets[si].as_mut().unwrap().0;
-                match set.select() {
-                    Ok(e) => e,
-                    Err(e) => return self.expect(&op, format!("{:?}", expected), format!("select-error:{}", e)),
+                let (setv, mem) = self.world.sets[si].take().unwrap();
+                match watch("select", 5_000, &|| true, move || {
+                    let mut s = setv;
+                    let r = s.select();
+                    (s, r)
+                }) {
+                    Watch::Done((s, r)) => {
+                        self.world.sets[si] = Some((s, mem));
+                        match r {
+                            Ok(e) => e,
+                            Err(e) => return self.expect(&op, format!("{:?}", expected), format!("select-error:{}", e)),
+                        }
+                    },
+                    Watch::Stuck(why) => {
+                        return self.expect(&op, format!("{:?}", expected), format!("select-blocks-with-events-pending: got so far {:?}; {}", got, why));
+                    },
+                    Watch::Unknown(why) => return self.expect(&op, format!("{:?}", expected), format!("select-undecided: {}", why)),
+                    Watch::Panicked(p) => return self.expect(&op, format!("{:?}", expected), format!("select-panicked: {}", p)),
                 }
             };
             if evs.is_empty() {
@@ -634,6 +650,9 @@ impl Interp {
                     }
                 },
                 _ => {
+                    if self.bias.failing_ops && self.rng.chance(350) {
+                        return self.do_failing_op(&live_srv).map(|_| true);
+                    }
                     if self.bias.regions {
                         if live_g.len() < 3 && self.rng.chance(600) {
                             let cid = self.fresh_id();
@@ -648,6 +667,15 @@ impl Interp {
                             self.ops.push(format!("new-region len={}", len));
                             self.trace.push(format!("new-region len={}", len));
                             return Ok(true);
+                        } else if !live_g.is_empty() && live_g.len() < 6 && self.rng.chance(400) {
+                            let gi = *self.rng.pick(&live_g);
+                            let (g, cid, len) = self.world.regions[gi].as_ref().unwrap();
+                            let c = (g.clone(), *cid, *len);
+                            let op = format!("clone-region g{}", gi);
+                            self.ops.push(op.clone());
+                            let ok = &c.0[..] == &region_bytes(c.1, c.2)[..];
+                            self.world.regions.push(Some(c));
+                            return self.expect(&op, "same-content".into(), if ok { "same-content".into() } else { "content differs".into() }).map(|_| true);
                         } else if !live_g.is_empty() {
                             let gi = *self.rng.pick(&live_g);
                             self.world.regions[gi] = None;
@@ -660,6 +688,63 @@ impl Interp {
             }
         }
         Ok(false)
+    }
+
+    /// Operations that must fail (C11): they change nothing in the model except where noted.
+    fn do_failing_op(&mut self, live_srv: &[usize]) -> Result<(), Mismatch> {
+        let m = mon();
+        match self.rng.below(6) {
+            0 => {
+                let name = std::env::temp_dir().join(format!("no-such-dir-{}", self.fresh_id())).join("socket").to_string_lossy().into_owned();
+                let op = "connect-missing-name".to_string();
+                self.ops.push(op.clone());
+                let r = IpcSender::<PMsg>::connect(name);
+                self.expect(&op, "error".into(), if r.is_ok() { "ok".into() } else { "error".into() })
+            },
+            1 if m.is_some() => {
+                let op = "channel-with-socketpair-failure".to_string();
+                self.ops.push(op.clone());
+                m.unwrap().fail_next(C_SOCKETPAIR, libc::EMFILE, 0);
+                let r = ipc::channel::<PMsg>();
+                m.unwrap().fail_next(0, 0, 0);
+                self.expect(&op, "error".into(), if r.is_ok() { "ok".into() } else { "error".into() })
+            },
+            2 | 3 if m.is_some() => {
+                let which = if self.rng.chance(500) { (C_BIND, "bind") } else { (C_LISTEN, "listen") };
+                let op = format!("server-with-{}-failure", which.1);
+                self.ops.push(op.clone());
+                m.unwrap().fail_next(which.0, libc::EADDRINUSE, 0);
+                let r = IpcOneShotServer::<PMsg>::new();
+                m.unwrap().fail_next(0, 0, 0);
+                self.expect(&op, "error".into(), if r.is_ok() { "ok".into() } else { "error".into() })
+            },
+            4 if m.is_some() => {
+                // accept whose socket option call fails: the server is consumed, its channel is gone
+                let cands: Vec<usize> = live_srv.iter().cloned().filter(|&i| !self.model.chans[self.world.servers[i].as_ref().unwrap().2].queue.is_empty()).collect();
+                if cands.is_empty() {
+                    return Ok(());
+                }
+                let vi = *self.rng.pick(&cands);
+                let (srv, _name, ch, _c) = self.world.servers[vi].take().unwrap();
+                let op = format!("accept-with-setsockopt-failure server{} ch{}", vi, ch);
+                self.ops.push(op.clone());
+                m.unwrap().fail_next(C_SETSOCKOPT, libc::ENOBUFS, 0);
+                let r = srv.accept();
+                m.unwrap().fail_next(0, 0, 0);
+                self.model.drop_receiver(ch);
+                self.drops += 1;
+                self.expect(&op, "error".into(), if r.is_ok() { "ok".into() } else { "error".into() })
+            },
+            _ => {
+                // send on a channel whose receiver is gone (if any)
+                let cands: Vec<usize> = World::live(&self.world.senders).into_iter().filter(|&i| !self.model.rx_alive(self.world.senders[i].as_ref().unwrap().1)).collect();
+                if cands.is_empty() {
+                    return Ok(());
+                }
+                let si = *self.rng.pick(&cands);
+                self.do_send(si)
+            },
+        }
     }
 
     pub fn run(mut self) -> (Outcome, World, Model) {
